@@ -204,6 +204,21 @@ pub fn adf_query(id: &str, qid: &str, q: &[String], adf: &mut Adf, _parser: &Adf
         "acs" => {
             writeln!(out, "{} {} acs {}", id, qid, handles_string(&adf.ac)).unwrap();
         }
+        "paths" => {
+            // path counts of the two terminals and of every acceptance condition, through the count cache /
+            // memoisation and by plain recursion
+            let mut hs: Vec<Term> = vec![Term(0), Term(1)];
+            hs.extend(adf.ac.iter().copied());
+            let l: Vec<String> = hs
+                .iter()
+                .map(|t| {
+                    let a = adf.bdd.paths(*t, true);
+                    let b = adf.bdd.paths(*t, false);
+                    format!("{}:{}/{}:{}/{}", t.value(), a.cmodels, a.models, b.cmodels, b.models)
+                })
+                .collect();
+            writeln!(out, "{} {} paths {}", id, qid, l.join(" ")).unwrap();
+        }
         _ => panic!("unknown adf query {:?}", q),
     }
 }
